@@ -49,6 +49,22 @@ Definition runnable (dead : list Z) (e : event) : bool :=
 (* events without user code that are not model.step: "scheduled up front" *)
 Definition plain (l : list event) : Prop := Forall (fun e => e_step e = false /\ e_body e = []) l.
 
+(* --- vocabulary of the C14 statements --- *)
+(* a runnable event that is due at a run_until endt *)
+Definition due (dead : list Z) (endt : Z) (e : event) : bool := runnable dead e && (e_time e <=? endt).
+(* x is pending, not cancelled, not model.step, and its callable is alive *)
+Definition watch (x : event) (st : state) : Prop :=
+  In x (s_events st) /\ e_cancelled x = false /\ e_step x = false /\ memz (e_holder x) (s_dead st) = false.
+(* during the log l nobody cancelled x's tag or dropped x's holder *)
+Definition survives (x : event) (l : list logitem) : Prop :=
+  ~ In (e_tag x) (cancels l) /\ ~ In (e_holder x) (drops l).
+(* the callable holder h is dead *)
+Definition dead_holder (h : Z) (st : state) : Prop := memz h (s_dead st) = true.
+(* the event id u is cancelled: it was handed out already, and whatever is pending under it is cancelled *)
+Definition cancelled_id (u : Z) (st : state) : Prop :=
+  u < s_uid st /\ forall x, In x (s_events st) -> e_uid x = u -> e_cancelled x = true.
+
+
 (* --- C15: cutting a run into pieces --- *)
 Inductive piece := PUntil (t : Z) | PFor (d : Z) | PNext.
 
